@@ -335,6 +335,14 @@ func TestC05Keeper(t *testing.T) {
 					price = price.Add(gap.MulInt64(int64(1 + rng.Intn(9))).QuoInt64(10))
 					tr.Count("k.place:off-grid-price")
 				}
+				switch rng.Intn(60) {
+				case 0: // far outside the price limits of the pair (rejected once there is a last price)
+					price = tick(d + 3000 - 6000*rng.Intn(2))
+					tr.Count("k.place:far-price")
+				case 1: // a lifespan beyond MaxOrderLifespan: rejected
+					l = 48 * hour
+					tr.Count("k.place:too-long-lifespan")
+				}
 				q.place(1+rng.Intn(5), buy, price, amount(), l)
 			}
 			if rng.Chance(30) {
@@ -349,6 +357,22 @@ func TestC05Keeper(t *testing.T) {
 				}
 				if bs == nil || rng.Chance(70) {
 					ss = c05kLadder(e.prec, c, w, false, amount())
+				}
+				switch rng.Intn(25) {
+				case 0: // an end of the range between two ticks: ErrPriceNotOnTicks
+					side := ss
+					if side == nil {
+						side = bs
+					}
+					side.min = side.min.Add(sdkmath.LegacyNewDecWithPrec(1, 18))
+					tr.Count("k.mm:off-grid-end")
+				case 1: // a range far outside the price limits: ErrPriceOutOfRange once there is a last price
+					if bs != nil {
+						bs = c05kLadder(e.prec, c-4000, w, true, bs.amt)
+					} else {
+						ss = c05kLadder(e.prec, c+4000, w, false, ss.amt)
+					}
+					tr.Count("k.mm:far-range")
 				}
 				q.placeMM(1+rng.Intn(3), bs, ss, life())
 				if rng.Chance(10) { // a second MM order of the same orderer in the same batch: ErrSameBatch
